@@ -215,6 +215,9 @@ func declReductions(d *DeclSpec) []func(*Scenario) bool {
 	if d.UnknownHandler != "" {
 		out = append(out, func(s *Scenario) bool { s.Decl.UnknownHandler = ""; return true })
 	}
+	if d.Reenter {
+		out = append(out, func(s *Scenario) bool { s.Decl.Reenter = false; return true })
+	}
 	if d.CmdHandler != "" {
 		out = append(out, func(s *Scenario) bool { s.Decl.CmdHandler = ""; return true })
 	}
